@@ -31,7 +31,21 @@ def main():
     if a.replay:
         with open(a.replay) as fh:
             data = json.load(fh)
-        return mod.replay(ctx, data)
+        if 'failing' not in data and data.get('broken_correspondence'):
+            # a no-failing-input-found replay: re-run the first input on which model and code disagreed
+            b = data['broken_correspondence'][0]
+            data['failing'] = {'input': b.get('input'), 'tag': b.get('correspondence'), 'detail': {
+                'chi': b.get('chi'), 'model': b.get('model')}}
+            print('replaying the input of the broken correspondence %s (chi %r, model %r)'
+                  % (b.get('correspondence'), b.get('chi'), b.get('model')))
+        if 'failing' not in data:
+            print('nothing to replay: broken proof obligations %r' % (data.get('broken_obligations'),))
+            return 1
+        r = mod.replay(ctx, data)
+        if ctx.corr_bad:
+            print('correspondences broken on replay:', [(d.get('correspondence'), d.get('chi'), d.get('model'))
+                                                         for d in ctx.corr_bad[:3]])
+        return r
     try:
         if a.no_audit:
             audit = {'theorems': [], 'broken': []}
